@@ -68,6 +68,7 @@ type Cfg struct {
 	ChunkMax  int    `json:"chunkmax"`
 	ErrReader bool   `json:"errreader,omitempty"`
 	IDGen     bool   `json:"idgen,omitempty"`
+	ConcForm  int    `json:"concform,omitempty"` // how the concurrency is spelled: 0 WithConcurrency(n); 1 bare int first; 2 bare int last; 3 bare int, then WithConcurrency(n)
 	// simulator options
 	Strat    int `json:"strat"`
 	Stick    int `json:"stick"`
@@ -180,6 +181,7 @@ type qh struct {
 	addsInvoked int
 	preloaded   int
 	boundAt uint64
+	boundRet uint64 // the binding call had returned by then
 	hb      sync.Mutex // handing the queue handle to other client tasks (see Sub.publish)
 }
 
@@ -341,7 +343,14 @@ func (wd *World) fnBody(j Job[int]) (int, error) {
 func (wd *World) configs() []any {
 	c := wd.cfg
 	var cs []any
-	cs = append(cs, WithConcurrency(c.Conc))
+	switch c.ConcForm {
+	case 1, 2:
+		cs = append(cs, c.Conc) // NewWorker(fn, n): the documented short form
+	case 3:
+		cs = append(cs, 7, WithConcurrency(c.Conc)) // the later option wins
+	default:
+		cs = append(cs, WithConcurrency(c.Conc))
+	}
 	if c.Expiry > 0 {
 		cs = append(cs, WithIdleWorkerExpiryDuration(time.Duration(c.Expiry)*timeUnit))
 	}
@@ -357,6 +366,9 @@ func (wd *World) configs() []any {
 	}
 	if c.IDGen {
 		cs = append(cs, WithJobIdGenerator(wd.genID))
+	}
+	if c.ConcForm == 2 && len(cs) > 1 {
+		cs = append(cs[1:len(cs):len(cs)], cs[0])
 	}
 	return cs
 }
@@ -442,6 +454,7 @@ func (wd *World) bindQueue(qc QCfg, shared *simAdapter) *qh {
 	q.idx = len(wd.qs)
 	q.cfg = qc
 	q.boundAt = inv
+	q.boundRet = r.stamp()
 	q.hb.Lock()
 	q.hb.Unlock()
 	wd.qs = append(wd.qs, q)
